@@ -9,3 +9,76 @@
 // modules that are `pub` inside the crate-private `solver::core`
 pub use crate::solver::core::cones;
 pub use crate::solver::core::kktsolvers;
+
+/// Read-only observer of the interior point loop.  Recording is per thread and off
+/// unless `start()` has been called; nothing is recorded (and nothing allocated)
+/// otherwise.
+pub mod observer {
+    use std::cell::RefCell;
+
+    /// iterate and `info` scalars as seen by `DefaultInfo::update` at the top of a pass
+    #[derive(Clone, Debug, Default)]
+    pub struct IterSnapshot {
+        pub x: Vec<f64>,
+        pub s: Vec<f64>,
+        pub z: Vec<f64>,
+        pub tau: f64,
+        pub kappa: f64,
+        pub mu: f64,
+        pub sigma: f64,
+        pub step_length: f64,
+        pub iterations: u32,
+        pub cost_primal: f64,
+        pub cost_dual: f64,
+        pub res_primal: f64,
+        pub res_dual: f64,
+        pub res_primal_inf: f64,
+        pub res_dual_inf: f64,
+        pub gap_abs: f64,
+        pub gap_rel: f64,
+        pub ktratio: f64,
+    }
+
+    #[derive(Clone, Debug)]
+    pub enum Event {
+        /// top of a pass of the main loop (after `info.update`)
+        Pass(Box<IterSnapshot>),
+        /// a named decision of the loop (`isdone`, strategy checkpoints, success flags)
+        Flag(&'static str, String),
+        /// a named scalar (step lengths, centring parameter)
+        Scalar(&'static str, f64),
+    }
+
+    thread_local! {
+        static LOG: RefCell<Option<Vec<Event>>> = const { RefCell::new(None) };
+    }
+
+    /// start (or restart) recording on this thread
+    pub fn start() {
+        LOG.with(|l| *l.borrow_mut() = Some(Vec::new()));
+    }
+    /// stop recording and return the events
+    pub fn take() -> Vec<Event> {
+        LOG.with(|l| l.borrow_mut().take().unwrap_or_default())
+    }
+    pub fn enabled() -> bool {
+        LOG.with(|l| l.borrow().is_some())
+    }
+    pub fn push(e: Event) {
+        LOG.with(|l| {
+            if let Some(v) = l.borrow_mut().as_mut() {
+                v.push(e)
+            }
+        });
+    }
+    pub fn flag(name: &'static str, value: impl std::fmt::Debug) {
+        if enabled() {
+            push(Event::Flag(name, format!("{:?}", value)));
+        }
+    }
+    pub fn scalar(name: &'static str, value: impl num_traits::ToPrimitive) {
+        if enabled() {
+            push(Event::Scalar(name, value.to_f64().unwrap_or(f64::NAN)));
+        }
+    }
+}
